@@ -93,9 +93,9 @@ func main() {
 	}
 	thorough := run.Tier == ev.Thorough
 	matrix := buildMatrix(thorough)
-	nRT := run.N(100_000, 3_000_000)
-	nGen := run.N(60_000, 1_500_000)
-	nAES := run.N(20_000, 400_000)
+	nRT := run.N(100_000, 2_000_000)
+	nGen := run.N(60_000, 1_000_000)
+	nAES := run.N(20_000, 300_000)
 
 	if rc := run.ReplayCase(); rc >= 0 {
 		c := &ctx{run: run, t: newTally()}
